@@ -185,6 +185,7 @@ def run_setpath(chk, F, CG, rid="R-SETPATH"):
     if n < 15:
         raise AnalysisBroken("only %d tracker.setPath sites in the XML reader" % n)
     rd = F.fn("UTAP::XMLReader::read")
+    _read_conditions(chk, rd, rid)
     pops = [c for c in calls(rd["body"]) if c.get("name") == "pop" and "path" in short(c.get("recv"))]
     pushes = [c for c in calls(rd["body"]) if c.get("name") == "push" and "path" in short(c.get("recv"))]
     cmp_ok = any(n.get("k") == "if" and "path.pop()" in short(n["c"]).replace("this->", "") and "getElement" in short(n["c"])
@@ -334,3 +335,73 @@ def run_tcpos(chk, F, rid="R-TCPOS"):
                        (fn["q"], txt[:60]), "%s:%s" % (fn["file"], c.get("l")))
     if n < 4:
         raise AnalysisBroken("only %d add_error/add_warning call sites found" % n)
+
+
+def _read_conditions(chk, rd, rid):
+    """Truth table of the conditions under which read() pushes / pops the element path, over the node states
+    {end element, empty element, non-empty element, other node}: every element start - empty ones included, they are
+    siblings that XPath indices count - must be pushed, and exactly the nodes that close an element must pop."""
+    def ev(e, st):
+        k = e.get("k")
+        if k == "cast":
+            return ev(e["e"], st)
+        if k == "bin" and e["op"] in ("&&", "||"):
+            a, b = ev(e["lhs"], st), ev(e["rhs"], st)
+            if a is None or b is None:
+                return None
+            return (a and b) if e["op"] == "&&" else (a or b)
+        if k == "un" and e.get("op") == "!":
+            a = ev(e["e"], st)
+            return None if a is None else not a
+        if k == "bin" and e["op"] in ("==", "!="):
+            for x, y in ((e["lhs"], e["rhs"]), (e["rhs"], e["lhs"])):
+                while x.get("k") == "cast":
+                    x = x["e"]
+                while y.get("k") == "cast":
+                    y = y["e"]
+                if x.get("k") == "call" and x.get("name") == "getNodeType" and y.get("dk") == "enumerator":
+                    eq = {"XML_READER_TYPE_END_ELEMENT": "end", "XML_READER_TYPE_ELEMENT": "element"}.get(y["name"], "?") == st[0]
+                    return eq if e["op"] == "==" else not eq
+            return None
+        if k == "call" and e.get("name") == "isEmpty":
+            return st[1]
+        return None
+    STATES = {"end element": ("end", False), "empty element": ("element", True),
+              "non-empty element": ("element", False), "other node": ("other", False)}
+
+    def guard_of(callname):
+        for n in walk(rd["body"]):
+            if n.get("k") == "if":
+                inside = [c for c in calls(n.get("then")) if c.get("name") == callname and "path" in short(c.get("recv"))]
+                incond = [c for c in calls(n.get("c")) if c.get("name") == callname and "path" in short(c.get("recv"))]
+                if incond:
+                    return None, n          # the call sits in a nested condition: handled by its parent
+                if inside:
+                    # innermost if that directly guards the call
+                    inner = [m for m in walk(n.get("then")) if m.get("k") == "if" and
+                             any(c.get("name") == callname for c in calls(m.get("c")))]
+                    return n["c"], n
+        return None, None
+    pushc, _ = guard_of("push")
+    popc = None
+    for n in walk(rd["body"]):
+        if n.get("k") == "if" and any(m.get("k") == "if" and any(c.get("name") == "pop" for c in calls(m.get("c")))
+                                      for m in walk(n.get("then"))):
+            popc = n["c"]
+            break
+    if pushc is None or popc is None:
+        raise AnalysisBroken("XMLReader::read: cannot find the conditions guarding path.push / path.pop")
+    want_push = {"end element": False, "empty element": True, "non-empty element": True, "other node": False}
+    want_pop = {"end element": True, "empty element": True, "non-empty element": False, "other node": False}
+    for name, st in STATES.items():
+        for what, cond, want in (("push", pushc, want_push), ("pop", popc, want_pop)):
+            v = ev(cond, st)
+            if v is None:
+                raise AnalysisBroken("XMLReader::read: condition `%s` is not a combination of node-type tests" % short(cond)[:80])
+            chk.ob(rid, "read|%s|%s" % (what, name), v == want[name],
+                   "XMLReader::read %s the element path on a %s (condition `%s`): %s" %
+                   ("does not " + what if want[name] else what + "es", name, short(cond)[:80],
+                    "empty elements are siblings too - the index in `label[n]` counts them in the input, so the "
+                    "XPath of a later sibling's diagnostics selects the wrong element" if name == "empty element"
+                    else "the path no longer mirrors the open elements"),
+                   "%s:%s" % (rd["file"], rd["line"]))
